@@ -4087,13 +4087,82 @@ where
 
 // -----------------------------------------------------------------------------------------------
 
+/// A weak handle on an information item itself (its inner node), whichever `Rc<XmlItem>` wrapper it is reached
+/// through. The DOM layer wraps an item in a fresh `Rc<XmlItem>` for every call and the factories drop the wrapper they
+/// registered, so the id map must not depend on one particular wrapper staying alive: an id resolves for as long as
+/// something (a DOM handle, a child list) holds the item.
+#[derive(Clone, Debug)]
+enum WeakItem {
+    Attribute(Weak<RefCell<XmlAttribute>>),
+    CData(Weak<RefCell<XmlCData>>),
+    CharReference(Weak<RefCell<XmlCharReference>>),
+    Comment(Weak<RefCell<XmlComment>>),
+    DeclarationAttList(Weak<RefCell<XmlDeclarationAttList>>),
+    Document(Weak<RefCell<XmlDocument>>),
+    DocumentType(Weak<RefCell<XmlDocumentTypeDeclaration>>),
+    Element(Weak<RefCell<XmlElement>>),
+    Entity(Weak<RefCell<XmlEntity>>),
+    Namespace(Weak<RefCell<XmlNamespace>>),
+    Notation(Weak<RefCell<XmlNotation>>),
+    PI(Weak<RefCell<XmlProcessingInstruction>>),
+    Text(Weak<RefCell<XmlText>>),
+    Unexpanded(Weak<RefCell<XmlUnexpandedEntityReference>>),
+    Unparsed(Weak<RefCell<XmlUnparsedEntity>>),
+}
+
+impl From<&XmlItem> for WeakItem {
+    fn from(value: &XmlItem) -> Self {
+        match value {
+            XmlItem::Attribute(v) => WeakItem::Attribute(Rc::downgrade(v)),
+            XmlItem::CData(v) => WeakItem::CData(Rc::downgrade(v)),
+            XmlItem::CharReference(v) => WeakItem::CharReference(Rc::downgrade(v)),
+            XmlItem::Comment(v) => WeakItem::Comment(Rc::downgrade(v)),
+            XmlItem::DeclarationAttList(v) => WeakItem::DeclarationAttList(Rc::downgrade(v)),
+            XmlItem::Document(v) => WeakItem::Document(Rc::downgrade(v)),
+            XmlItem::DocumentType(v) => WeakItem::DocumentType(Rc::downgrade(v)),
+            XmlItem::Element(v) => WeakItem::Element(Rc::downgrade(v)),
+            XmlItem::Entity(v) => WeakItem::Entity(Rc::downgrade(v)),
+            XmlItem::Namespace(v) => WeakItem::Namespace(Rc::downgrade(v)),
+            XmlItem::Notation(v) => WeakItem::Notation(Rc::downgrade(v)),
+            XmlItem::PI(v) => WeakItem::PI(Rc::downgrade(v)),
+            XmlItem::Text(v) => WeakItem::Text(Rc::downgrade(v)),
+            XmlItem::Unexpanded(v) => WeakItem::Unexpanded(Rc::downgrade(v)),
+            XmlItem::Unparsed(v) => WeakItem::Unparsed(Rc::downgrade(v)),
+        }
+    }
+}
+
+impl WeakItem {
+    fn upgrade(&self) -> Option<XmlItem> {
+        match self {
+            WeakItem::Attribute(v) => v.upgrade().map(XmlItem::Attribute),
+            WeakItem::CData(v) => v.upgrade().map(XmlItem::CData),
+            WeakItem::CharReference(v) => v.upgrade().map(XmlItem::CharReference),
+            WeakItem::Comment(v) => v.upgrade().map(XmlItem::Comment),
+            WeakItem::DeclarationAttList(v) => v.upgrade().map(XmlItem::DeclarationAttList),
+            WeakItem::Document(v) => v.upgrade().map(XmlItem::Document),
+            WeakItem::DocumentType(v) => v.upgrade().map(XmlItem::DocumentType),
+            WeakItem::Element(v) => v.upgrade().map(XmlItem::Element),
+            WeakItem::Entity(v) => v.upgrade().map(XmlItem::Entity),
+            WeakItem::Namespace(v) => v.upgrade().map(XmlItem::Namespace),
+            WeakItem::Notation(v) => v.upgrade().map(XmlItem::Notation),
+            WeakItem::PI(v) => v.upgrade().map(XmlItem::PI),
+            WeakItem::Text(v) => v.upgrade().map(XmlItem::Text),
+            WeakItem::Unexpanded(v) => v.upgrade().map(XmlItem::Unexpanded),
+            WeakItem::Unparsed(v) => v.upgrade().map(XmlItem::Unparsed),
+        }
+    }
+}
+
+// -----------------------------------------------------------------------------------------------
+
 #[derive(Clone)]
 pub struct Context {
     info: Singleton<ContextInfo>,
     idm: Singleton<IdManager>,
     document: Rc<XmlItem>,
     ordering: Singleton<DocumentOrder>,
-    id_map: Singleton<HashMap<usize, Weak<XmlItem>>>,
+    id_map: Singleton<HashMap<usize, WeakItem>>,
     text_expanded: bool,
 }
 
@@ -4121,7 +4190,7 @@ impl Context {
         let id_map = singleton(HashMap::new());
         id_map
             .borrow_mut()
-            .insert(info.borrow().id, Rc::downgrade(&document));
+            .insert(info.borrow().id, WeakItem::from(&*document));
 
         Context {
             info,
@@ -4136,7 +4205,7 @@ impl Context {
     fn add_item(&self, node: &Rc<XmlItem>) {
         self.id_map
             .borrow_mut()
-            .insert(self.info.borrow().id, Rc::downgrade(node));
+            .insert(self.info.borrow().id, WeakItem::from(&**node));
     }
 
     fn document(&self) -> XmlNode<XmlDocument> {
@@ -4188,7 +4257,11 @@ impl Context {
     }
 
     fn node(&self, id: usize) -> Option<Rc<XmlItem>> {
-        self.id_map.borrow().get(&id).and_then(|v| v.upgrade())
+        self.id_map
+            .borrow()
+            .get(&id)
+            .and_then(|v| v.upgrade())
+            .map(Rc::new)
     }
 
     /// Makes the id of `node` resolve to this very handle. A child list owns the handle it was given; when a node is
@@ -4197,7 +4270,7 @@ impl Context {
     fn register(&self, node: &Rc<XmlItem>) {
         self.id_map
             .borrow_mut()
-            .insert(node.id(), Rc::downgrade(node));
+            .insert(node.id(), WeakItem::from(&**node));
     }
 
     fn zero(&self) -> Context {
